@@ -235,7 +235,7 @@ def run_shard(spec, emit):
     tier, seed, shard, nshards = spec["tier"], spec["seed"], spec["shard"], spec["nshards"]
     runs = [r for i, r in enumerate(gen_runs(tier, seed)) if i % nshards == shard]
     scratch = os.environ.get("VERIF_SCRATCH") or tempfile.mkdtemp(prefix="verif-c15-")
-    deadline = time.monotonic() + (85 if tier == "quick" else 2400)
+    deadline = time.monotonic() + (85 if tier == "quick" else 300)
     samples = 0
     for run in runs:
         if time.monotonic() > deadline:
